@@ -150,6 +150,9 @@ class FieldBase(metaclass=ABCMeta):
                 )
                 raise ValueError(msg)
             # actually set the data
+            if getattr(self, "_FieldBase__data_full", None) is not value:
+                # cached methods might refer to the memory of the old data
+                self.__dict__.pop("_cache_methods", None)
             self.__data_full = value
 
         else:
